@@ -286,6 +286,8 @@ class ClassParser(BaseParser):
                     f"Attempt to set immutable attribute: [{repr(field.attname)}]"
                 )
 
+            # an assignment may be the first use of the class (custom __init__, no_parse)
+            self.resolve_forward_refs()
             context = self.options.make_context(_obj_self.__class__, force_error=True)
             value = field.parse_value(value, context=context)
             if unprovided(value):
